@@ -89,7 +89,12 @@ func genC10(t *rapid.T) *C10Case {
 			// an EndSeqNo below zero is not "through the last message sent": the range is empty
 			e = -rapid.IntRange(1, 3).Draw(t, "negE")
 		}
-		add(rig.Step{Op: "in", In: g.resend(b, e)})
+		rq := g.resend(b, e)
+		if rapid.IntRange(0, 2).Draw(t, "headerLookalikes") == 0 {
+			// optional header fields whose tags END in the digits of BeginSeqNo (7) / EndSeqNo (16)
+			rq.PreSeq = append(rq.PreSeq, rapid.SampledFrom([]rig.Tok{rig.F("57", "DESK"), rig.F("57", "3"), rig.F("97", "N"), rig.F("347", "UTF-8"), rig.F("116", "2"), rig.F("116", "X")}).Draw(t, "lookalikeHeader"))
+		}
+		add(rig.Step{Op: "in", In: rq})
 		if rapid.IntRange(0, 4).Draw(t, "between") == 0 {
 			add(rig.Step{Op: "send", ID: fmt.Sprintf("late%d", i)})
 			g.sent++
